@@ -1,0 +1,16 @@
+//go:build verif
+
+package plush
+
+import "github.com/gobuffalo/plush/v5/ast"
+
+// VerifProgram exposes the parsed program of a template to the verification
+// harness (read-only use: structural snapshots before and after Exec).
+func VerifProgram(t *Template) *ast.Program { return t.program }
+
+// VerifCacheReset empties the template cache so that histories start cold.
+func VerifCacheReset() {
+	moot.Lock()
+	defer moot.Unlock()
+	cache = map[string]*Template{}
+}
